@@ -38,10 +38,11 @@ class Obligation:
 
 
 class Outcome:
-    def __init__(self, kind, st, val=None):
+    def __init__(self, kind, st, val=None, node=None):
         self.kind = kind  # 'return' | 'raise' | 'break' | 'continue'
         self.st = st
         self.val = val
+        self.node = node
 
 
 class Closure:
@@ -116,8 +117,8 @@ class Executor:
         self._obl_ids.add(oid)
         self.obligations.append(Obligation(oid, kind, st.pc, g, self.where(node) if node is not None else self.filename, note))
 
-    def push_outcome(self, kind, st: State, val=None):
-        self.frames[-1].append(Outcome(kind, st, val))
+    def push_outcome(self, kind, st: State, val=None, node=None):
+        self.frames[-1].append(Outcome(kind, st, val, node))
 
     def safe_assume(self, st, c):
         """after a safety obligation the code continues under the checked condition; in specifications (total
@@ -532,6 +533,11 @@ class Executor:
             return z3.StringVal("None")
         if v.ty is bool:
             return z3.If(V.bval(v.t), z3.StringVal("True"), z3.StringVal("False"))
+        if isinstance(v.ty, type):
+            for k in v.ty.__mro__:
+                h = self.w.str_handlers.get(k)
+                if h is not None:
+                    return h(self, st, v)
         n = V.ival(v.t)
         return z3.If(
             V.is_s(v.t),
@@ -663,6 +669,12 @@ class Executor:
     def get_attr(self, st, obj: Val, attr: str, node=None) -> Val:
         # real python object (module / class / enum): real getattr
         if obj.py is not None and not isinstance(obj.py, (Closure, BoundMethod)):
+            sym = self.w.symbolic_module_attrs.get((getattr(obj.py, "__name__", None), attr))
+            if sym is not None:
+                # a module-level variable that callers may rebind: its value when read, not the value at import
+                v = Val(z3.Const(f"G_{obj.py.__name__}.{attr}", V), sym)
+                self.assume_type(st, v)
+                return v
             try:
                 real = getattr(obj.py, attr)
             except AttributeError:
@@ -1018,7 +1030,7 @@ class Executor:
 
     # ------------------------------------------------------------------ raising
     def raise_exc(self, st: State, excval: Val, node=None):
-        self.push_outcome("raise", st.fork(), excval)
+        self.push_outcome("raise", st.fork(), excval, node)
         self.kill(st)
 
     def raise_new(self, st: State, cls, node=None, fields=None):
@@ -1335,7 +1347,10 @@ class Executor:
                 g = m[len("$ghost:"):]
                 old = st.ghost.get(g)
                 if old is None:
-                    raise Unsupported(f"ghost {g} not initialised")
+                    srt = self.w.ghost_sorts.get(g)
+                    if srt is None:
+                        raise Unsupported(f"ghost {g} not declared")
+                    old = z3.Const(f"G0_{g}", srt)
                 st.ghost[g] = self.fresh(f"g_{g}", old.sort())
             elif m.startswith("*."):
                 f = m[2:]
@@ -1562,7 +1577,7 @@ class Executor:
                     remaining = None
                     break
             if remaining is not None:
-                passthrough.append(Outcome("raise", remaining, exc))
+                passthrough.append(Outcome("raise", remaining, exc, o.node))
         if node.finalbody:
             new_pass = []
             for o in passthrough:
